@@ -831,6 +831,8 @@ class Exec:
     def check_inv(self, st, spec, k, kind, ctxkw, head_ctx=None, fields=None, lineno=None):
         ctx = self.mkctx(st, **ctxkw)
         hints = []
+        if kind == 'inv-establish' and getattr(spec, 'est_hints', None) is not None:
+            hints = self.prove_lemmas(st, list(spec.est_hints(ctx)), ctx, 'loop%d-establish' % k, lineno)
         if kind == 'inv-preserve' and spec.hints is not None:
             hints = self.prove_lemmas(st, list(spec.hints(head_ctx, ctx)) + list(head_ctx.defs), ctx,
                                       'loop%d' % k, lineno)
@@ -899,6 +901,13 @@ class Exec:
         self.check_inv(st, spec, k, 'inv-establish', kw, fields=fields, lineno=s.lineno)
         h = st.copy()
         self.havoc_for_loop(h, s.body, spec)
+        if getattr(spec, 'forget', False):
+            # sound weakening: at the head only the entry assumptions and the invariant are kept
+            # (facts about the intermediate states of the prologue are dropped)
+            h.pc = list(self.entry.pc)
+            kw = dict(loop_pre=None)
+            o = L.fresh('o', L.Ref)
+            h.assume(L.FA([o], z3.Implies(self.entry.alive(o), h.alive(o)), patterns=[h.alive(o)]))
         head_ctx = self.assume_inv(h, spec, kw, fields)
         h.trace.append('L%d:while-head' % s.lineno)
         self.covers.append(('%s/cover[loop%d-head]' % (self.c.qualname, k), list(h.pc)))
